@@ -196,7 +196,12 @@ def apply(s, step, ctx):
     op = step['op']
     sig = dict(op=op)
     s.nrules += 1
-    ent = s.meshes[step.get('mesh', 0) % len(s.meshes)]
+    mi = step.get('mesh', 0) % len(s.meshes)
+    ent = s.meshes[mi]
+    s.uses = getattr(s, 'uses', {})
+    s.uses[mi] = s.uses.get(mi, 0) + 1
+    if s.uses[mi] >= 2:
+        s.reuse += 1
     m, kind = ent['obj'], ent['kind']
     before = mesh_digest(m)
     ctx.cls('op:' + op)
